@@ -225,8 +225,8 @@ def r6(ctx):
     from . import C07
     # "success implies the output holds every record": the job list covers every contig with reads exactly once (C05-R1/R2), every job BAM
     # reaches the merge (C05-R7), and the molecule iterator emits every fragment exactly once (C07-R2)
-    include(ctx, C05, [C05.r1, C05.r2, C05.r7], 'C20-R6')
-    include(ctx, C07, [C07.r2], 'C20-R6')
+    include(ctx, C05, [C05.r1, C05.r2, C05.r3, C05.r7], 'C20-R6')
+    include(ctx, C07, [C07.r2, C07.r1, C07.r3], 'C20-R6')
     g = ctx.fn(TAGGING, 'run_tagging_tasks')
     hs = [h for t in walk_no_nested(g) if isinstance(t, ast.Try) for h in t.handlers
           if any(isinstance(c, ast.Call) and last_name(dotted(c.func) or '') == 'run_tagging_task' for b in t.body for c in ast.walk(b))]
@@ -238,6 +238,55 @@ def r6(ctx):
         ctx.emit('C20-R6', ok, TAGGING, h, f'worker except arm catches {types}' + (' and records the region as timed out' if swallows else ' and re-raises') +
                  ('' if ok else ': failures other than a time-out are reported as a skipped region and the run still ends with a success status'),
                  key=f'worker-swallows-only-timeout:{k}', what='run_tagging_tasks: an exception other than TimeoutError is swallowed as a time-out')
+
+
+@rule('C20', 'C20-R7', 'the input index that is checked for staleness is the one the BAM library opens: get_index_path tries <bam>.bai before <stem>.bai (and '
+                       '<bam>.csi before <stem>.csi) - htslib prefers the name with the full file name, so judging the other file fresh leaves a stale index in '
+                       'use and fetches silently return the records of an older version of the file')
+def r7(ctx):
+    from ..consteval import fold, TOP
+    f = ctx.fn(BAMFUNC, 'get_index_path')
+    par = f.args.args[0].arg
+    order = []
+    unknown = []
+
+    def walk(stmts, env):
+        for st in stmts:
+            if isinstance(st, ast.For) and isinstance(st.iter, (ast.List, ast.Tuple)) and isinstance(st.target, ast.Name):
+                for e in st.iter.elts:
+                    v = fold(e, env)
+                    if v is TOP:
+                        unknown.append(src(e))
+                        continue
+                    walk(st.body, dict(env, **{st.target.id: v}))
+            elif isinstance(st, ast.If):
+                for c in ast.walk(st.test):
+                    if isinstance(c, ast.Call) and (dotted(c.func) or '').endswith('exists') and c.args:
+                        v = fold(c.args[0], env)
+                        if v is TOP:
+                            unknown.append(src(c.args[0]))
+                        else:
+                            order.append(v)
+                walk(st.body, env)
+                walk(st.orelse, env)
+            elif isinstance(st, ast.Assign) and len(st.targets) == 1 and isinstance(st.targets[0], ast.Name):
+                v = fold(st.value, env)
+                if v is not TOP:
+                    env = dict(env, **{st.targets[0].id: v})
+            elif isinstance(st, (ast.For, ast.While, ast.Try, ast.With)):
+                unknown.append(type(st).__name__)
+    walk(f.body, {par: 'lib.bam'})
+    if unknown or not order:
+        ctx.emit('C20-R7', False, BAMFUNC, f, f'candidate index paths of get_index_path cannot be enumerated ({unknown[:3]})', key='index-candidate-order', undecided=True)
+        return
+    bad = []
+    for ext in ('.bai', '.csi'):
+        full, stem = 'lib.bam' + ext, 'lib' + ext
+        if stem in order and (full not in order or order.index(stem) < order.index(full)):
+            bad.append((stem, full))
+    ctx.emit('C20-R7', not bad, BAMFUNC, f, f'candidates for lib.bam are tried in the order {order}' + ('' if not bad else f': `{bad[0][0]}` is preferred over `{bad[0][1]}`, the index the BAM library opens - a stale '
+             f'`{bad[0][1]}` next to a fresh `{bad[0][0]}` is then not rebuilt'), key='index-candidate-order', witness={'order': order} if bad else None,
+             what='get_index_path prefers <stem>.bai over <bam>.bai')
 
 
 META = {
